@@ -32,10 +32,12 @@ DOCUMENTED = {
 
 
 def dict_keys(mod, name):
+    from ..interproc import dict_entries
     e = mod.assigns.get(name)
-    if not e or not isinstance(e[-1], ast.Dict):
+    got = dict_entries(mod.repo, mod, e[-1]) if e else None
+    if got is None:
         raise AnalysisError(f"anchor vanished: table {mod.name}:{name}")
-    return [const_str(k) for k in e[-1].keys]
+    return list(got)
 
 
 def run(chk, repo):
@@ -247,12 +249,13 @@ def grammar_rules(chk, repo):
             raise AnalysisError(f"anchor vanished: regex {name}")
     chk.count("regexes", len(rx))
     # translations table: group -> lookup table name | passthrough | other
+    from ..interproc import dict_entries
     tr = mod.assigns.get("translations")
-    if not tr or not isinstance(tr[-1], ast.Dict):
+    tr_entries = dict_entries(repo, mod, tr[-1]) if tr else None
+    if not tr_entries:
         raise AnalysisError("anchor vanished: decoders.translations")
     trans = {}
-    for k, v in zip(tr[-1].keys, tr[-1].values):
-        g = const_str(k)
+    for g, v in tr_entries.items():
         kind = ("other", norm(v))
         if isinstance(v, ast.Call) and isinstance(v.func, ast.Name) and v.func.id == "curry" and v.args:
             cs = resolve_callees(repo, mod, v.args[0])
